@@ -148,7 +148,10 @@ impl<'a> Gen<'a> {
         }
         presentation(rng, &mut attrs);
         if rng.chance(1, 3) { let id = { self.n += 1; format!("n{}", self.n) }; attrs.insert(0, ("id".into(), id)); }
-        X::El { name: name.into(), attrs, kids: None }
+        // `<rect ...></rect>`, start and end tag with nothing between them (how HTML serialisers write an
+        // element without children), is the same element as `<rect .../>`
+        let open_close = self.rng.chance(1, 6);
+        X::El { name: name.into(), attrs, kids: if open_close { Some(vec![]) } else { None } }
     }
 
     fn text(&mut self) -> X {
